@@ -85,6 +85,8 @@ def run(ck: Check):
     ck.sample({"file": files[len(files) // 2].hex(), "reference": str(reference(files[len(files) // 2]))})
     early(ck)
     model = run_model(cases, shards=8)
+    from coqlit import xcheck
+    xcheck(ck, cases, model)
     for c, m, i in zip(cases, model, impl):
         if m != i:
             ck.mismatch(c.split()[0], c, m, i)
